@@ -110,7 +110,7 @@ func chainProp(quick, thorough float64, rule string) PropSpec {
 
 func init() {
 	base := "one evaluation = one simulated chain history (40-140 generated steps: signed transactions with adversarial signature/fee/encoding treatments, blocks with time gaps, absent votes, double-sign evidence, mempool reordering, off-chain calls, restarts) on a swarm-drawn configuration; every ABCI phase boundary is dumped and judged on the diff; "
-	Props["C06"] = chainProp(45, 900, base+"distinct case = committed population shape; non-trivial = block executed with transient-store and commit-version checks")
+	Props["C06"] = chainProp(45, 900, base+"distinct case = committed population shape; non-trivial = block executed with transient-store and commit-version checks; every third seed drives the multistore alone (storesim): two nodes receive identical persistent writes, one of them also transient writes made directly, through a cache-wrapped multistore and through a nested one; every commit must advance the version by one, give both nodes the same hash and leave the transient store empty")
 	Props["C11"] = chainProp(45, 900, base+"off-chain calls (queries at any height, CheckTx, app/simulate of every tx kind) are placed at every ABCI boundary; distinct case = (call kind/path, placement)")
 	Props["C12"] = chainProp(60, 900, base+"the recorded chain log is re-executed by replicas: plain (fresh globals), GOMAXPROCS 16, wall clock decades behind and decades ahead of chain time (testing/synctest bubble); per-block digests (tx code/codespace/data, validator updates, app hash) must be equal; distinct case = tx outcomes and replica sets")
 	Props["C13"] = chainProp(60, 900, base+"the primary serves queries at any height, CheckTx and simulations at every ABCI boundary, restarts with cold caches and runs with small node-local caches; a plain replica re-executes the same blocks with none of that; per-block digests must be equal; distinct case = (call kind, placement)")
